@@ -173,6 +173,7 @@ class G:
         off = 0
         ints = []            # names of small unsigned integer fields usable in expressions
         fields = []
+        post = []            # virtual fields to append after the physical ones
         nf = r.randint(1, 6)
         dynamic = False
         for i in range(nf):
@@ -215,6 +216,11 @@ class G:
                 lines.append("  %d [+%d] %s %s" % (off, n, ref, fn))
                 off += n
                 self.feat("enum_field")
+                if r.random() < 0.5:
+                    an = self.snake(taken)
+                    post.append("  let %s = %s" % (an, fn))
+                    post.append("    [requires: this == %s.%s]" % (ref, info["values"][0][0]))
+                    self.feat("writable_virtual_enum")
             elif kind == "struct" and structs:
                 ref, size, ps = r.choice(structs)
                 if size is None or ps:
@@ -303,6 +309,16 @@ class G:
             lines.append("  0 [+1] UInt %s" % fn)
             ints.append(fn)
             off = 1
+        # full-width operands for the 64-bit acceptance boundary of comparisons / arithmetic
+        wide = {}
+        if not dynamic and r.random() < 0.35:
+            for kind, width in r.sample([("UInt", 8), ("Int", 8), ("UInt", 7), ("Int", 4), ("Int", 1), ("UInt", 4)], r.randint(2, 3)):
+                fn = self.snake(taken)
+                lines.append("  %d [+%d] %s %s" % (off, width, kind, fn))
+                off += width
+                wide[fn] = (kind, width)
+                fields.append(fn)
+            self.feat("wide_operands")
         # parameters used
         for pn, kind in pnames:
             if kind == "int" and not dynamic and r.random() < 0.6:
@@ -310,12 +326,13 @@ class G:
                 lines.append("  %d [+%s] UInt:8[] %s" % (off, pn, fn))
                 dynamic = True
                 self.feat("parameter_sized_array")
+        lines += post
         # virtual fields
         nv = r.randint(0, 5)
         for i in range(nv):
             vn = self.snake(taken)
             k = r.choice(["const", "bigconst", "arith", "cmp", "alias", "choice", "bool", "enumconst", "max",
-                          "present", "size", "writable"])
+                          "present", "size", "writable", "alias_requires"] + (["wide", "wide"] if wide else []))
             if k == "const":
                 lines.append("  let %s = %d" % (vn, r.randint(-1000, 1000)))
             elif k == "bigconst":
@@ -332,6 +349,36 @@ class G:
             elif k == "cmp" and ints:
                 lines.append("  let %s = %s %s %s" % (vn, r.choice(ints), r.choice(["==", "<", "<=", ">", "!="]),
                                                       r.choice(ints + ["7"])))
+            elif k == "wide":
+                # operands that all fit one 64-bit type are accepted (and must compile); a full-width UInt:64
+                # against a signed operand is rejected by the front end — drawn rarely, it costs the module
+                names = sorted(wide)
+                a = r.choice(names)
+                same = [n for n in names if n != a and (wide[n][0] == wide[a][0] or wide[a] != ("UInt", 8)) and
+                        not (wide[n] == ("UInt", 8) and wide[a][0] == "Int")]
+                mixed = [n for n in names if n != a and n not in same]
+                if mixed and r.random() < 0.12:
+                    b = r.choice(mixed)
+                    self.feat("mixed_64bit_signedness(front end must reject)")
+                else:
+                    b = r.choice(same + [str(r.choice([0, 1, 255, 4294967296]))])
+                form = r.choice(["cmp", "cmp", "cmp", "choice", "max", "sub"])
+                if form == "cmp":
+                    lines.append("  let %s = %s %s %s" % (vn, a, r.choice(["==", "!=", "<", "<=", ">", ">="]), b))
+                elif form == "choice":
+                    lines.append("  let %s = %s < 3 ? %s : %s" % (vn, a, a, b))
+                elif form == "max":
+                    lines.append("  let %s = $max(%s, %s)" % (vn, a, b))
+                else:
+                    small = [n for n in names if wide[n][1] <= 4] + ["1"]
+                    lines.append("  let %s = %s - %s" % (vn, r.choice(small), r.choice(small)))
+                self.feat("wide_operation")
+            elif k == "alias_requires" and ints:
+                # a writable virtual field (alias + [requires]) of integer type (enum-typed ones: `post`)
+                tgt = r.choice(sorted(set(ints)))
+                lines.append("  let %s = %s" % (vn, tgt))
+                lines.append("    [requires: this %s %d]" % (r.choice(["<", "!=", ">="]), r.randint(0, 50)))
+                self.feat("alias_with_requires")
             elif k == "alias" and fields:
                 lines.append("  let %s = %s" % (vn, r.choice(fields)))
                 self.feat("alias")
@@ -377,7 +424,11 @@ def gen(r, risky=0.15):
         lines.append('import "dep.emb" as dep')
         g.feat("import")
     lines.append('[$default byte_order: "%s"]' % r.choice(["LittleEndian", "BigEndian"]))
-    ns = r.choice([None, "gen", "gen::m1", "::a1::b_2::c3", " x :: y "])
+    ns = r.choice([None, "gen", "gen::m1", "::a1::b_2::c3", " x :: y ", " :: top ::  Protected", "new_ ::class1",
+                   "::_u :: v9 ", "std2::wire "])
+    if r.random() < 0.04:       # a keyword component: the back end must reject (else `namespace new {` reaches g++)
+        ns = r.choice(["acme :: %s :: wire", " %s", "std2::%s ", "%s"]) % r.choice(
+            ["protected", "new", "default", "NULL", "and", "class", "delete", "not", "int", "alignas"])
     if ns is not None:
         lines.append('[(cpp) namespace: "%s"]' % ns)
         g.feat("namespace")
@@ -406,9 +457,16 @@ def gen(r, risky=0.15):
         bn = g.camel(types, suffix_from=types)
         bt = set()
         lines += ["bits %s:" % bn, "  0 [+4] UInt %s" % g.snake(bt), "  4 [+1] Flag %s" % g.snake(bt),
-                  "  5 [+11] Int %s" % g.snake(bt), "  let %s = %d" % (g.snake(bt), r.randint(0, 9)), ""]
+                  "  5 [+11] Int %s" % g.snake(bt), "  let %s = %d" % (g.snake(bt), r.randint(0, 9))]
+        nb = 2
+        if r.random() < 0.6:
+            # an array *inside* the bits (bit-addressed elements: kAddressableUnitSize == 1)
+            lines.append("  16 [+8] %s:%d[%d] %s" % (r.choice(["UInt", "Int"]), *r.choice([(4, 2), (2, 4), (8, 1)]), g.snake(bt)))
+            nb = 3
+            g.feat("array_inside_bits")
+        lines.append("")
         hn = g.camel(types)
-        lines += ["struct %s:" % hn, "  0 [+2] %s %s" % (bn, "field"), "  2 [+4] %s[2] %s" % (bn, "fields"), ""]
+        lines += ["struct %s:" % hn, "  0 [+%d] %s %s" % (nb, bn, "field"), "  %d [+%d] %s[2] %s" % (nb, 2 * nb, bn, "fields"), ""]
         g.feat("top_level_bits")
         g.feat("array_in_struct_of_bits")
     files = {"m.emb": "\n".join(lines) + "\n"}
